@@ -122,6 +122,9 @@ def objects(tier):
     d1 += ['[]', '()', '{}', 'set()', 'frozenset()', 'deque()', 'range(3)', 'range(0)', '[1, "a"]', '(1, "a", 2.5)', '{1, "a"}', '{1: "a", "b": 2}', '[1, None]', '[[1], ["a"]]', '[[], [1]]', '{"k": [1, "a"]}', '[{"a": 1}, {"b": "c"}]',
            '([1], {"a": (1, 2)})', '[(1, "a"), (2, "b")]', '{(1, 2): [3]}', '[1, [2, [3, ["x"]]]]', 'tuple(range(30))', '[[1, 2], [3, 4]]', 'b"abc"', 'bytearray(b"x")', 'memoryview(b"x")', '{"a": 1}.items()',
            "{1: [1]}.items()", "{1: {2: 3}}.values()", 'UserSeq([UserSeq([1])])', '[UserMap({1: [1]})]', '[L0(), L2()]', '[L0, L1]', '[int, str]', '[len, print]', '(lambda: 0)', 'len', 'L0', 'int', '[list[int]]', '(List[int], 3)', '{1: Optional[int]}', '[Union[int, str]]', '[1, list[int]]',
+           # enum members, views of dict subclasses, Counter with non-int counts, string-like user sequences, C method descriptors, duck-typed containers
+           'CR', '[CR]', '{"k": CR}', 'OrderedDict({1: 2}).keys()', 'OrderedDict({1: 2}).values()', 'OrderedDict({1: 2}).items()', 'Counter({"a": 1.5})', 'Counter({"a": 2})',
+           'UserString("ab")', 'str.upper', 'list.append', '[].__len__', 'DuckSeq([1])', 'defaultdict(list).keys()', 'ChainMap({1: 2}).keys()',
            # items that compare (and hash) equal but differ in type
            '[1, 1.0]', '[1.0, 1]', '[0, False, 0.0]', '[True, 1]', '{"k": [2, 2.0]}', '(7, 7.0) * 6', 'deque([1, 1.0, True])', '[(1,), (1.0,)]', 'UserSeq([1, 1.0])', '{1: 1.0, 2: 1}', '[1j, 1, 1.0]', '[[1, 1.0], [True]]',
            '{1.0: "a", 2: "b"}', 'frozenset([1, 2.0])', '[b"a", "a"]', '["", 0, None, 0.0]']
@@ -135,6 +138,18 @@ def bounded(rep, tier):
     from beartype.roar import BeartypeDoorInferHintRecursionWarning
     from typing import List, Optional, Union
     NS = dict(shapes.NS); NS.update(List=List, Optional=Optional, Union=Union)
+    import collections as _c
+    class DuckSeq:
+        """has every method of a Sequence but inherits from no ABC (isinstance(DuckSeq(...), Sequence) is False)"""
+        def __init__(self, items): self._i = list(items)
+        def __len__(self): return len(self._i)
+        def __getitem__(self, k): return self._i[k]
+        def __iter__(self): return iter(self._i)
+        def __contains__(self, x): return x in self._i
+        def __reversed__(self): return reversed(self._i)
+        def index(self, x): return self._i.index(x)
+        def count(self, x): return self._i.count(x)
+    NS.update(UserString=_c.UserString, DuckSeq=DuckSeq)
     cases = 0; fails = []
     from beartype import BeartypeConf, BeartypeStrategy
     CONF_ON = BeartypeConf(strategy=BeartypeStrategy.On)
@@ -142,7 +157,9 @@ def bounded(rep, tier):
     for src in objects(tier):
         try: o = eval(src, NS)
         except Exception: continue
-        if is_hint_pep(o) or isinstance(o, type) and False: continue
+        try:
+            if is_hint_pep(o): continue
+        except Exception: pass        # the hint detector itself fails on this object: certainly not a hint
         cases += 1
         try:
             with warnings.catch_warnings():
@@ -186,6 +203,12 @@ def bounded(rep, tier):
     rep.bounded.append(dict(kind='is_bearable(obj, infer_hint(obj)) over an object grammar + self-referential containers (bounded stand-in, NOT counted as proved)', objects=cases, failing=len(fails)))
 
 def classify(src, msg):
+    if 'UserString' in src: return 'userstring'
+    if 'CR' in src.replace('"', ' ').replace('[', ' ').replace(']', ' ').split() or src == 'CR' or 'CR}' in src: return 'enum_member'
+    if 'OrderedDict(' in src and ('.keys()' in src or '.values()' in src): return 'odict_view'
+    if src.startswith('Counter(') and '.' in src: return 'counter_nonint'
+    if src in ('str.upper', 'list.append', '[].__len__'): return 'c_method_descriptor'
+    if 'DuckSeq' in src: return 'duck_typed_sequence'
     if 'RecursionError' in msg or 'recursion warning' in msg: return 'recursion'
     if 'list[int]' in src or 'List[' in src or 'Optional[' in src or 'Union[' in src: return 'container_holding_a_hint'
     if '.items()' in src: return 'items_view'
